@@ -1226,7 +1226,7 @@ def c10_oracle(label, text, r):
 
 def cases_c10(tier, seed):
     q = tier == "quick"
-    n = 300 if q else 1500
+    n = 300 if q else 900
     cases = []
     k = 0
     for wl in ("fixed1", "fixedN", "var", "bdel", "bdelN"):
@@ -1256,7 +1256,7 @@ def check_c10(tier, seed):
         # the initial file is large enough that no commit has to extend it: a writer that must remap the file waits for every
         # open reader, and the single-threaded interpreter holds the pinned reader itself (it would wait for ever, by design)
         "C10", tier, seed, cases_c10(tier, seed), dict(pagesize=1024, num_pages=3000 if tier == "quick" else 8000),
-        "long runs (quick 300, thorough 1500 transactions) over 40 keys: fixed-size single-page overwrites, fixed-size multi-page values, "
+        "long runs (quick 300, thorough 900 transactions) over 40 keys: fixed-size single-page overwrites, fixed-size multi-page values, "
         "variable sizes with deletes, nested bucket create/fill/delete; with a reader pinned for 50 commits, with reopen every 25/40 commits; "
         "the high-water mark is read from EVERY committed header by the Gallina decoder: no growth between warm-up and the pin, growth only "
         "while pinned (+ settling), none afterwards, up to 15% / 5% + 4 pages of fragmentation slack (fixed-size workloads); bounded and flat in the last third (variable-size); every commit's "
